@@ -185,7 +185,8 @@ structure SignerFits (cfg : Protocol) (s : Signer) (hdrs : List (String × Json)
 theorem signModel_reads_back (cfg : Protocol) (model : Json) (s : Signer) (hdrs : List (String × Json)) (compact : String)
     (hs : signModel model s = some compact) (fit : SignerFits cfg s hdrs)
     (hnf : RT.numFree model = true) (hobj : ∃ kvs, model = .obj kvs) :
-    ∃ p n, parseSignedData cfg compact = some p ∧ model.normalize = some n ∧ payloadJson p = some n := by
+    ∃ p n, parseSignedData cfg compact = some p ∧ model.normalize = some n ∧
+      payloadJson p = some (GoJson.view signedShape n) := by
   obtain ⟨hh, hplain, hnodup, hok, hallowed, hsigne⟩ := fit
   obtain ⟨kvs, rfl⟩ := hobj
   -- unfold what the builder did
@@ -381,6 +382,127 @@ theorem jwk_normal_form_decodes (k : Jwk) (nk : Json) (h : k.toJson.normalize = 
     obtain ⟨s, rfl⟩ := jwk_toJson_strings k key v this
     simp [normalize]
 
+
+/-! ### the struct view (member names up to case) leaves what the builders sign as it is -/
+
+open GoJson in
+theorem view_leaf (j : Json) : view .leaf j = j := by cases j <;> rfl
+
+open GoJson in
+theorem viewMembers_id (fs : List (String × Shape)) : ∀ (kvs : List (String × Json)),
+    (∀ p ∈ kvs, ∀ f sh, fieldFor fs p.1 = some (f, sh) → f = p.1 ∧ view sh p.2 = p.2) → viewMembers fs kvs = kvs
+  | [], _ => by simp [viewMembers]
+  | (k, v) :: rest, h => by
+    have ih := viewMembers_id fs rest (fun p hp => h p (List.mem_cons_of_mem _ hp))
+    simp only [viewMembers, ih]
+    cases hf : fieldFor fs k with
+    | none => rfl
+    | some fsh =>
+      obtain ⟨f, sh⟩ := fsh
+      obtain ⟨e1, e2⟩ := h (k, v) List.mem_cons_self f sh hf
+      simp only at e1 e2
+      simp [e1, e2]
+
+theorem normalizeMembers_mem : ∀ (kvs m : List (String × Json)), normalizeMembers kvs = some m →
+    ∀ p ∈ m, ∃ q ∈ kvs, p.1 = q.1 ∧ normalize q.2 = some p.2
+  | [], m, h => by simp [normalizeMembers] at h; subst h; simp
+  | (k, x) :: xs, m, h => by
+    simp only [normalizeMembers] at h
+    cases hx : normalize x with
+    | none => simp [hx] at h
+    | some x' =>
+      cases hxs : normalizeMembers xs with
+      | none => simp [hx, hxs] at h
+      | some xs' =>
+        simp only [hx, hxs, Option.some.injEq] at h
+        subst h
+        intro p hp
+        rcases List.mem_cons.mp hp with e | hp'
+        · subst e; exact ⟨(k, x), List.mem_cons_self, rfl, hx⟩
+        · obtain ⟨q, hq, e1, e2⟩ := normalizeMembers_mem xs xs' hxs p hp'
+          exact ⟨q, List.mem_cons_of_mem _ hq, e1, e2⟩
+
+/-- the members of the normal form of an object are the normal forms of its members -/
+theorem normalize_obj_mem (kvs : List (String × Json)) (n : Json) (h : (Json.obj kvs).normalize = some n) :
+    ∃ kvs', n = .obj kvs' ∧ ∀ p ∈ kvs', ∃ q ∈ kvs, p.1 = q.1 ∧ normalize q.2 = some p.2 := by
+  simp only [normalize] at h
+  cases hm : normalizeMembers kvs with
+  | none => simp [hm] at h
+  | some m =>
+    simp only [hm] at h
+    split at h
+    · refine ⟨_, (Option.some.inj h).symm, ?_⟩
+      intro p hp
+      exact normalizeMembers_mem kvs m hm p ((sortMembers_perm m).mem_iff.mp hp)
+    · cases h
+
+theorem jwk_member_names (k : Jwk) : ∀ q ∈ (match k.toJson with | .obj kvs => kvs | _ => []),
+    q.1 ∈ ["kty", "crv", "x", "y", "n", "e", "nonce"] := by
+  cases k with
+  | mk kty crv x y n e nonce =>
+    by_cases h1 : n = "" <;> by_cases h2 : e = "" <;> by_cases h3 : nonce = "" <;>
+      simp [Jwk.toJson, h1, h2, h3]
+
+open GoJson in
+theorem fieldFor_jwk (name : String) (h : name ∈ ["kty", "crv", "x", "y", "n", "e", "nonce"]) :
+    fieldFor jwkFields name = some (name, .leaf) := by
+  simp only [List.mem_cons, List.not_mem_nil, or_false] at h
+  rcases h with e | e | e | e | e | e | e <;> subst e <;> rfl
+
+open GoJson in
+theorem fieldFor_signed_leaf (name : String)
+    (h : name ∈ ["deltaHash", "recoveryCommitment", "anchorOrigin", "didSuffix", "revealValue", "anchorFrom", "anchorUntil"]) :
+    fieldFor signedFields name = some (name, .leaf) := by
+  simp only [List.mem_cons, List.not_mem_nil, or_false] at h
+  rcases h with e | e | e | e | e | e | e <;> subst e <;> rfl
+
+open GoJson in
+theorem fieldFor_signed_key (name : String) (h : name ∈ ["updateKey", "recoveryKey"]) :
+    fieldFor signedFields name = some (name, jwkShape) := by
+  simp only [List.mem_cons, List.not_mem_nil, or_false] at h
+  rcases h with e | e <;> subst e <;> rfl
+
+open GoJson in
+/-- the normal form of a marshalled key is its own struct view -/
+theorem jwk_view (k : Jwk) (nk : Json) (h : k.toJson.normalize = some nk) : view jwkShape nk = nk := by
+  have hobj : ∃ kvs, k.toJson = .obj kvs := ⟨_, rfl⟩
+  obtain ⟨kvs, hk⟩ := hobj
+  have hnames := jwk_member_names k
+  rw [hk] at h hnames
+  obtain ⟨kvs', rfl, hmem⟩ := normalize_obj_mem kvs nk h
+  show Json.obj (viewMembers jwkFields kvs') = _
+  rw [viewMembers_id]
+  intro p hp f sh hf
+  obtain ⟨q, hq, e1, _⟩ := hmem p hp
+  have hn := hnames q hq
+  rw [← e1] at hn
+  rw [fieldFor_jwk p.1 hn] at hf
+  cases hf
+  exact ⟨rfl, view_leaf _⟩
+
+open GoJson in
+/-- **what a builder signs reads back unchanged through the struct view**: an object whose members
+    are spelled as the signed data models' fields and whose keys are marshalled `jws.JWK`s -/
+theorem signed_view_id (kvs : List (String × Json)) (n : Json) (hn : (Json.obj kvs).normalize = some n)
+    (hm : ∀ q ∈ kvs, (q.1 ∈ ["updateKey", "recoveryKey"] ∧ ∃ k : Jwk, q.2 = k.toJson) ∨
+      q.1 ∈ ["deltaHash", "recoveryCommitment", "anchorOrigin", "didSuffix", "revealValue", "anchorFrom", "anchorUntil"]) :
+    view signedShape n = n := by
+  obtain ⟨kvs', rfl, hmem⟩ := normalize_obj_mem kvs n hn
+  show Json.obj (viewMembers signedFields kvs') = _
+  rw [viewMembers_id]
+  intro p hp f sh hf
+  obtain ⟨q, hq, e1, e2⟩ := hmem p hp
+  rcases hm q hq with ⟨hname, k, hk⟩ | hname
+  · rw [← e1] at hname
+    rw [fieldFor_signed_key p.1 hname] at hf
+    cases hf
+    rw [hk] at e2
+    exact ⟨rfl, jwk_view k p.2 e2⟩
+  · rw [← e1] at hname
+    rw [fieldFor_signed_leaf p.1 hname] at hf
+    cases hf
+    exact ⟨rfl, view_leaf _⟩
+
 /-! ### update / deactivate / recover: the read-back the acceptance theorems assumed -/
 
 /-- **update**: with no anchoring window set, the parser reads the signed data a builder emitted
@@ -394,6 +516,12 @@ theorem update_reads_back (cfg : Protocol) (k : Jwk) (dh : String) (s : Signer) 
   rw [hmodel] at hs
   obtain ⟨p, n, hp, hn, hpj⟩ := signModel_reads_back cfg _ s hdrs compact hs fit
     (by simp [RT.numFree, RT.numFreeMembers, jwk_numFree]) ⟨_, rfl⟩
+  rw [signed_view_id _ n hn (by
+    intro q hq
+    simp only [List.mem_cons, List.not_mem_nil, or_false] at hq
+    rcases hq with e | e <;> subst e
+    · exact .inl ⟨by simp, k, rfl⟩
+    · exact .inr (by simp))] at hpj
   obtain ⟨nk, hnk⟩ := jwk_normalizes k
   have g1 := normalize_obj_get _ n hn "updateKey"
   have g2 := normalize_obj_get _ n hn "deltaHash"
@@ -422,6 +550,13 @@ theorem deactivate_reads_back (cfg : Protocol) (k : Jwk) (suffix : String) (s : 
   rw [hmodel] at hs
   obtain ⟨p, n, hp, hn, hpj⟩ := signModel_reads_back cfg _ s hdrs compact hs fit
     (by simp [RT.numFree, RT.numFreeMembers, jwk_numFree]) ⟨_, rfl⟩
+  rw [signed_view_id _ n hn (by
+    intro q hq
+    simp only [List.mem_cons, List.not_mem_nil, or_false] at hq
+    rcases hq with e | e | e <;> subst e
+    · exact .inr (by simp)
+    · exact .inr (by simp)
+    · exact .inl ⟨by simp, k, rfl⟩)] at hpj
   obtain ⟨nk, hnk⟩ := jwk_normalizes k
   have g0 := normalize_obj_get _ n hn "didSuffix"
   have g1 := normalize_obj_get _ n hn "recoveryKey"
@@ -460,6 +595,11 @@ theorem recover_reads_back (H : HashFam) (cfg : Protocol) (k : Jwk) (dh rc : Str
     rw [hmodel] at hs
     obtain ⟨p, n, hp, hn, hpj⟩ := signModel_reads_back cfg _ s hdrs compact hs fit
       (by simp [RT.numFree, RT.numFreeMembers, jwk_numFree]) ⟨_, rfl⟩
+    rw [signed_view_id _ n hn (by
+      intro q hq
+      simp only [List.mem_cons, List.not_mem_nil, or_false] at hq
+      rcases hq with e | e | e <;> subst e <;>
+        first | exact .inl ⟨by simp, k, rfl⟩ | exact .inr (by simp))] at hpj
     have g0 := normalize_obj_get _ n hn "deltaHash"
     have g1 := normalize_obj_get _ n hn "recoveryKey"
     have g2 := normalize_obj_get _ n hn "recoveryCommitment"
@@ -479,6 +619,11 @@ theorem recover_reads_back (H : HashFam) (cfg : Protocol) (k : Jwk) (dh rc : Str
     rw [hmodel] at hs
     obtain ⟨p, n, hp, hn, hpj⟩ := signModel_reads_back cfg _ s hdrs compact hs fit
       (by simp [RT.numFree, RT.numFreeMembers, jwk_numFree]) ⟨_, rfl⟩
+    rw [signed_view_id _ n hn (by
+      intro q hq
+      simp only [List.mem_cons, List.not_mem_nil, or_false] at hq
+      rcases hq with e | e | e | e <;> subst e <;>
+        first | exact .inl ⟨by simp, k, rfl⟩ | exact .inr (by simp))] at hpj
     have g0 := normalize_obj_get _ n hn "deltaHash"
     have g1 := normalize_obj_get _ n hn "recoveryKey"
     have g2 := normalize_obj_get _ n hn "recoveryCommitment"
